@@ -1342,13 +1342,20 @@ def _native_can_dyn(d, mode, which, inbytes, compilers=("clang++-14", "g++")):
         binhex = cxx.reflection_binary(fcp).hex()
         open(os.path.join(dd, "harness.cpp"), "w").write(cxx.can_dyn_harness_source(sch, d["structs"]))
         open(os.path.join(dd, "main.cpp"), "w").write("#include <cstdlib>\n" + _CAN_DYN_MAIN)
+        if d.get("sanitize"):
+            compilers = ("clang++-14",)
         for cc in compilers:
-            rc, so, se = run([cc, "-std=c++17", "-O1", "-w", "-I", dd, "-I", cxx.THIRD_PARTY, "harness.cpp", "main.cpp",
+            flags = (["-O0", "-g", "-fsanitize=address,undefined", "-fno-sanitize-recover=all", "-fno-omit-frame-pointer"]
+                     if d.get("sanitize") else ["-O1"])
+            rc, so, se = run([cc, "-std=c++17", *flags, "-w", "-I", dd, "-I", cxx.THIRD_PARTY, "harness.cpp", "main.cpp",
                               "-o", os.path.join(dd, "a.out")], cwd=dd, timeout=900)
             if rc:
                 outs.append((cc, "compile-error", se[-600:]))
                 continue
-            rc, so, se = run([os.path.join(dd, "a.out"), mode, binhex, str(which), "".join(f"{b:02x}" for b in inbytes) or "00"], cwd=dd, timeout=60)
+            rc, so, se = run([os.path.join(dd, "a.out"), mode, binhex, str(which), "".join(f"{b:02x}" for b in inbytes) or "00"], cwd=dd, timeout=120,
+                             env={"ASAN_OPTIONS": "detect_leaks=0", "UBSAN_OPTIONS": "print_stacktrace=0"})
+            if d.get("sanitize") and rc:
+                se = " ".join(l for l in se.splitlines() if "ERROR" in l or "SUMMARY" in l or "runtime error" in l)[:400] or se
             outs.append((cc, rc, so.strip() if rc == 0 else f"crashed rc={rc} {se[-200:]}"))
     return outs
 
